@@ -1,6 +1,8 @@
 INIT Init
 NEXT Next
-CONSTANT MaxLen = 4
+CONSTANTS
+  MaxLen = 3
+  AllUnits = TRUE
 INVARIANT EscapedTextIsWellFormed
 INVARIANT Total
 INVARIANT RawNeedsEscaping
